@@ -84,6 +84,9 @@ int main(int argc, char** argv)
     if (perturb) vctl::install(seed, 35, 100, 100, "rw.");
     vlog::rng R(seed * 214013 + 2531011);
 
+    // the mutex object of the previous history (all its accesses are released); a later history may
+    // move-assign its mutex onto this object and go on requesting through it
+    std::unique_ptr<mutex_t> old;
     for (int hi = 0; hi < nhist; ++hi)
     {
         int n = 2 + (int) R.below(9);
@@ -101,8 +104,17 @@ int main(int argc, char** argv)
         ev("init").i("n", n).done();
         auto mtx = std::make_unique<mutex_t>(0);
         std::vector<std::unique_ptr<acc_t>> acc;
+        int relocate_at = (old && R.chance(1, 2)) ? 1 + (int) R.below(n) : 0;
         for (int i = 1; i <= n; ++i)
         {
+            if (i == relocate_at + 1 && relocate_at > 0)
+            {
+                // the mutex is a movable object: after the move assignment the requests continue the same
+                // sequence through the assigned-to object
+                ev("relocate").i("after", relocate_at).done();
+                *old = std::move(*mtx);
+                mtx.swap(old);
+            }
             auto a = std::make_unique<acc_t>();
             a->i = i;
             a->is_w = R.chance(2, 5);
@@ -120,6 +132,7 @@ int main(int argc, char** argv)
             else a->rs.emplace(mtx->read());
             acc.push_back(std::move(a));
         }
+        old.reset();
         if (destroy_early) mtx.reset();    // the value must outlive the mutex
 
         std::atomic<int> go{0};
@@ -242,6 +255,7 @@ int main(int argc, char** argv)
             }
         }
         for (auto& t : thr) t.join();
+        if (mtx) old = std::move(mtx);
         ev("reset").done();
     }
     vlog::flush();
